@@ -1,8 +1,893 @@
+//! C07 — the shipped lattice (bi)morphisms distribute over merge.
+//!
+//! Real code: `CartesianProductBimorphism` (set_union.rs), `KeyedBimorphism` (map_union.rs),
+//! `PairBimorphism` (pair.rs), `GhtCartesianProductBimorphism`, `GhtValTypeProductBimorphism`,
+//! `GhtNodeKeyedBimorphism`, `DeepJoinLatticeBimorphism`, `GhtBimorphism` (ght/lattice.rs).
+//!
+//! Every argument and every output is mirrored by an independent model: a relation
+//! `Rel = BTreeSet<Vec<u8>>` (a set of tuples / facts) whose join is plain set union.
+//!   sets      {x}            -> [x]
+//!   maps      k -> {x,..}    -> [k,x]..  and the marker [k] for "key present" (so bottom-valued entries exist as inputs)
+//!   Max<u8>   v              -> [v]      (join = max; as an *output* it is the down-set {[tag,1]..[tag,v]})
+//!   GHT       rows           -> [c0,c1,..]
+//! For a case (side, a, d, b) the monitor calls the real bimorphism three times
+//!   left : f(a,b), f(d,b), f(a⊔d, b)        right: f(a,b), f(a,d), f(a, b⊔d)
+//! (a⊔d / b⊔d computed by the crate's own `Merge`), reads the outputs back into `Rel`s and demands
+//!   model(f(merged)) = model(f(base)) ∪ model(f(delta))           (the bimorphism law),
+//!   model(crate_merge(f(base), f(delta))) = the same               (law stated with the crate's ⊔ on outputs),
+//!   each of the three outputs = the documented function computed by nested loops on the models.
+//! Outputs are never compared with the crate's own PartialEq/PartialOrd.
+
+use std::collections::{BTreeMap, BTreeSet, HashMap, HashSet};
+
+use lattices::collections::{ArraySet, OptionMap, OptionSet, SingletonMap, SingletonSet, VecMap};
+use lattices::ght::lattice::{
+    DeepJoinLatticeBimorphism, GhtBimorphism, GhtCartesianProductBimorphism, GhtNodeKeyedBimorphism, GhtValTypeProductBimorphism,
+};
+use lattices::ght::{GeneralizedHashTrieNode, GhtGet, GhtInner, GhtLeaf};
+use lattices::map_union::{KeyedBimorphism, MapUnion};
+use lattices::set_union::{CartesianProductBimorphism, SetUnion};
+use lattices::{GhtType, LatticeBimorphism, Max, Merge, Pair, PairBimorphism};
+use variadics::variadic_collections::VariadicHashSetStd;
+use variadics::{var_expr, var_type};
+use vcommon::{Args, Reporter, Rng, Tier, Value, catch, hash_of, json};
+
+const ENGINE: &str = "mon_morph";
+
+type Rel = BTreeSet<Vec<u8>>;
+
+#[derive(Clone, Copy, Debug, PartialEq, Eq, Hash)]
+enum Side {
+    Left,
+    Right,
+}
+
+#[derive(Clone, Debug, Hash)]
+struct Case {
+    fam: usize,
+    combo: usize,
+    side: Side,
+    a: Rel,
+    d: Rel,
+    b: Rel,
+}
+
+/// Observed outputs of the three real calls (+ the crate's own merge of the two partial outputs).
+struct Outs {
+    base: Rel,
+    delta: Rel,
+    merged: Rel,
+    joined: Rel,
+}
+
+/// Builds the arguments from the model, runs the real code, reads the results back.
+/// `None` = this representation combination cannot hold these values (e.g. a 2-element `SingletonSet`).
+#[allow(clippy::too_many_arguments)]
+fn drive<A, DA, B, DB, O>(
+    c: &Case,
+    mk_a: impl Fn(&Rel) -> Option<A>,
+    mk_da: impl Fn(&Rel) -> Option<DA>,
+    mk_b: impl Fn(&Rel) -> Option<B>,
+    mk_db: impl Fn(&Rel) -> Option<DB>,
+    merge_a: impl Fn(&mut A, DA),
+    merge_b: impl Fn(&mut B, DB),
+    f: impl Fn(&A, &B) -> O,
+    f_da: impl Fn(&DA, &B) -> O,
+    f_db: impl Fn(&A, &DB) -> O,
+    merge_o: impl Fn(&mut O, O),
+    obs: impl Fn(&O) -> Rel,
+) -> Option<Outs> {
+    let (base, delta, merged) = match c.side {
+        Side::Left => {
+            let (a, d, b) = (mk_a(&c.a)?, mk_da(&c.d)?, mk_b(&c.b)?);
+            let base = f(&a, &b);
+            let delta = f_da(&d, &b);
+            let mut am = a;
+            merge_a(&mut am, d);
+            (base, delta, f(&am, &b))
+        }
+        Side::Right => {
+            let (a, b, d) = (mk_a(&c.a)?, mk_b(&c.b)?, mk_db(&c.d)?);
+            let base = f(&a, &b);
+            let delta = f_db(&a, &d);
+            let mut bm = b;
+            merge_b(&mut bm, d);
+            (base, delta, f(&a, &bm))
+        }
+    };
+    let (ob, od, om) = (obs(&base), obs(&delta), obs(&merged));
+    let mut j = base;
+    merge_o(&mut j, delta);
+    Some(Outs { base: ob, delta: od, merged: om, joined: obs(&j) })
+}
+
+// ---------------------------------------------------------------------------------------------
+// model -> representation
+
+trait FromRel: Sized {
+    const NAME: &'static str;
+    fn from_rel(r: &Rel) -> Option<Self>;
+}
+fn col0(r: &Rel) -> impl Iterator<Item = u8> + '_ {
+    r.iter().map(|t| t[0])
+}
+impl FromRel for HashSet<u8> {
+    const NAME: &'static str = "HashSet";
+    fn from_rel(r: &Rel) -> Option<Self> {
+        Some(col0(r).collect())
+    }
+}
+impl FromRel for BTreeSet<u8> {
+    const NAME: &'static str = "BTreeSet";
+    fn from_rel(r: &Rel) -> Option<Self> {
+        Some(col0(r).collect())
+    }
+}
+impl FromRel for Vec<u8> {
+    const NAME: &'static str = "Vec";
+    fn from_rel(r: &Rel) -> Option<Self> {
+        let mut v: Vec<u8> = col0(r).collect();
+        v.reverse();
+        Some(v)
+    }
+}
+impl FromRel for SingletonSet<u8> {
+    const NAME: &'static str = "SingletonSet";
+    fn from_rel(r: &Rel) -> Option<Self> {
+        (r.len() == 1).then(|| SingletonSet(col0(r).next().unwrap()))
+    }
+}
+impl FromRel for OptionSet<u8> {
+    const NAME: &'static str = "OptionSet";
+    fn from_rel(r: &Rel) -> Option<Self> {
+        (r.len() <= 1).then(|| OptionSet(col0(r).next()))
+    }
+}
+impl FromRel for ArraySet<u8, 2> {
+    const NAME: &'static str = "ArraySet2";
+    fn from_rel(r: &Rel) -> Option<Self> {
+        let v: Vec<u8> = col0(r).collect();
+        (v.len() == 2).then(|| ArraySet([v[1], v[0]]))
+    }
+}
+
+/// Map model: `[k]` marks a present key, `[k,x]` an element of its value set.
+fn map_model(r: &Rel) -> BTreeMap<u8, BTreeSet<u8>> {
+    let mut m: BTreeMap<u8, BTreeSet<u8>> = BTreeMap::new();
+    for t in r {
+        let e = m.entry(t[0]).or_default();
+        if t.len() > 1 {
+            e.insert(t[1]);
+        }
+    }
+    m
+}
+trait SetVal: Sized {
+    fn of(xs: &BTreeSet<u8>) -> Self;
+}
+impl SetVal for SetUnion<HashSet<u8>> {
+    fn of(xs: &BTreeSet<u8>) -> Self {
+        SetUnion::new(xs.iter().copied().collect())
+    }
+}
+impl SetVal for SetUnion<BTreeSet<u8>> {
+    fn of(xs: &BTreeSet<u8>) -> Self {
+        SetUnion::new(xs.clone())
+    }
+}
+trait FromMap<V>: Sized {
+    const NAME: &'static str;
+    fn from_entries(e: Vec<(u8, V)>) -> Option<Self>;
+}
+impl<V> FromMap<V> for HashMap<u8, V> {
+    const NAME: &'static str = "HashMap";
+    fn from_entries(e: Vec<(u8, V)>) -> Option<Self> {
+        Some(e.into_iter().collect())
+    }
+}
+impl<V> FromMap<V> for BTreeMap<u8, V> {
+    const NAME: &'static str = "BTreeMap";
+    fn from_entries(e: Vec<(u8, V)>) -> Option<Self> {
+        Some(e.into_iter().collect())
+    }
+}
+impl<V> FromMap<V> for VecMap<u8, V> {
+    const NAME: &'static str = "VecMap";
+    fn from_entries(e: Vec<(u8, V)>) -> Option<Self> {
+        let (k, v): (Vec<u8>, Vec<V>) = e.into_iter().rev().unzip();
+        Some(VecMap::new(k, v))
+    }
+}
+impl<V> FromMap<V> for SingletonMap<u8, V> {
+    const NAME: &'static str = "SingletonMap";
+    fn from_entries(mut e: Vec<(u8, V)>) -> Option<Self> {
+        if e.len() != 1 {
+            return None;
+        }
+        let (k, v) = e.pop().unwrap();
+        Some(SingletonMap(k, v))
+    }
+}
+impl<V> FromMap<V> for OptionMap<u8, V> {
+    const NAME: &'static str = "OptionMap";
+    fn from_entries(mut e: Vec<(u8, V)>) -> Option<Self> {
+        (e.len() <= 1).then(|| OptionMap(e.pop()))
+    }
+}
+fn mk_map<M: FromMap<V>, V: SetVal>(r: &Rel) -> Option<MapUnion<M>> {
+    M::from_entries(map_model(r).iter().map(|(k, xs)| (*k, V::of(xs))).collect()).map(MapUnion::new)
+}
+
+// ---------------------------------------------------------------------------------------------
+// GHT shapes
+
+type G1 = GhtType!(u8 => u8: VariadicHashSetStd); // (k | v)
+type G2 = GhtType!(u8, u8 => u8: VariadicHashSetStd); // (k1, k2 | v)
+type G3 = GhtType!(u8 => u8, u8: VariadicHashSetStd); // (k | v1, v2)
+type L1 = <G1 as GhtGet>::Get; // leaf of G1: schema (k,v), suffix (v)
+type L3 = <G3 as GhtGet>::Get; // leaf of G3: schema (k,v1,v2), suffix (v1,v2)
+type Out4 = GhtType!(u8, u8 => u8, u8: VariadicHashSetStd);
+type Out5 = GhtType!(u8 => u8, u8, u8, u8: VariadicHashSetStd);
+type S3 = var_type!(u8, u8, u8);
+type S4 = var_type!(u8, u8, u8, u8);
+type S5 = var_type!(u8, u8, u8, u8, u8);
+/// Leaf types the deep join produces: schema = (A's row, B's value columns).
+type LeafJ1 = GhtLeaf<S3, var_type!(u8, u8), VariadicHashSetStd<S3>>;
+type LeafJ2 = GhtLeaf<S4, var_type!(u8, u8), VariadicHashSetStd<S4>>;
+type LeafJ3 = GhtLeaf<S5, var_type!(u8, u8, u8, u8), VariadicHashSetStd<S5>>;
+type OutJ1 = GhtInner<u8, LeafJ1>;
+type OutJ2 = GhtInner<u8, GhtInner<u8, LeafJ2>>;
+type OutJ3 = GhtInner<u8, LeafJ3>;
+type DJ1 = <(G1, G1) as DeepJoinLatticeBimorphism<VariadicHashSetStd<S3>>>::DeepJoinLatticeBimorphism;
+type DJ2 = <(G2, G2) as DeepJoinLatticeBimorphism<VariadicHashSetStd<S4>>>::DeepJoinLatticeBimorphism;
+type DJ3 = <(G3, G3) as DeepJoinLatticeBimorphism<VariadicHashSetStd<S5>>>::DeepJoinLatticeBimorphism;
+
+trait Flat {
+    fn flat(&self, out: &mut Vec<u8>);
+}
+impl Flat for () {
+    fn flat(&self, _out: &mut Vec<u8>) {}
+}
+impl<R: Flat> Flat for (&u8, R) {
+    fn flat(&self, out: &mut Vec<u8>) {
+        out.push(*self.0);
+        self.1.flat(out);
+    }
+}
+macro_rules! ght_obs {
+    ($g:expr) => {{
+        let mut rel = Rel::new();
+        for t in $g.recursive_iter() {
+            let mut v = vec![];
+            t.flat(&mut v);
+            rel.insert(v);
+        }
+        rel
+    }};
+}
+macro_rules! ght_mk {
+    ($T:ty, 2) => {
+        |r: &Rel| -> Option<$T> { Some(<$T as GeneralizedHashTrieNode>::new_from(r.iter().map(|t| var_expr!(t[0], t[1])))) }
+    };
+    ($T:ty, 3) => {
+        |r: &Rel| -> Option<$T> { Some(<$T as GeneralizedHashTrieNode>::new_from(r.iter().map(|t| var_expr!(t[0], t[1], t[2])))) }
+    };
+}
+/// A GHT family: both deltas have the type of their base; `$call` is `|a: &A, b: &B| -> Out`.
+macro_rules! ght_family {
+    ($A:ty, $na:tt, $B:ty, $nb:tt, $O:ty, $call:expr) => {
+        |c: &Case| -> Option<Outs> {
+            drive(
+                c,
+                ght_mk!($A, $na),
+                ght_mk!($A, $na),
+                ght_mk!($B, $nb),
+                ght_mk!($B, $nb),
+                |x: &mut $A, d: $A| {
+                    Merge::merge(x, d);
+                },
+                |x: &mut $B, d: $B| {
+                    Merge::merge(x, d);
+                },
+                $call,
+                $call,
+                $call,
+                |x: &mut $O, y: $O| {
+                    Merge::merge(x, y);
+                },
+                |o: &$O| ght_obs!(o),
+            )
+        }
+    };
+}
+
+// ---------------------------------------------------------------------------------------------
+// families
+
+#[derive(Clone, Copy, Debug, PartialEq, Eq)]
+enum ArgKind {
+    /// a set of u8 (1-tuples)
+    Set,
+    /// a map u8 -> set of u8 ([k] markers and [k,x] pairs)
+    Map,
+    /// Max<u8>: a single 1-tuple
+    Max,
+    /// rows of the given arity
+    Rows(usize),
+}
+
+type Runner = fn(&Case) -> Option<Outs>;
+
+struct Family {
+    name: &'static str,
+    a: ArgKind,
+    b: ArgKind,
+    /// the documented function, on models
+    spec: fn(&Rel, &Rel) -> Rel,
+    combos: Vec<(String, Runner)>,
+}
+
+fn max_of(r: &Rel) -> u8 {
+    r.iter().map(|t| t[0]).max().unwrap_or(0)
+}
+fn downset(tag: u8, v: u8) -> impl Iterator<Item = Vec<u8>> {
+    (1..=v).map(move |i| vec![tag, i])
+}
+fn cat(x: &[u8], y: &[u8]) -> Vec<u8> {
+    let mut v = x.to_vec();
+    v.extend_from_slice(y);
+    v
+}
+
+fn spec_cartesian(a: &Rel, b: &Rel) -> Rel {
+    let mut out = Rel::new();
+    for x in a {
+        for y in b {
+            out.insert(cat(x, y));
+        }
+    }
+    out
+}
+fn spec_keyed(a: &Rel, b: &Rel) -> Rel {
+    let (ma, mb) = (map_model(a), map_model(b));
+    let mut out = Rel::new();
+    for (k, xs) in &ma {
+        if let Some(ys) = mb.get(k) {
+            for x in xs {
+                for y in ys {
+                    out.insert(vec![*k, *x, *y]);
+                }
+            }
+        }
+    }
+    out
+}
+fn spec_pair_set_max(a: &Rel, b: &Rel) -> Rel {
+    a.iter().map(|t| vec![0, t[0]]).chain(downset(1, max_of(b))).collect()
+}
+fn spec_pair_max_set(a: &Rel, b: &Rel) -> Rel {
+    downset(0, max_of(a)).chain(b.iter().map(|t| vec![1, t[0]])).collect()
+}
+/// rows of `a` × the last `nvb` columns of rows of `b`, where the first `nkeys` columns agree
+fn join(a: &Rel, b: &Rel, nkeys: usize, a_from: usize, nvb: usize) -> Rel {
+    let mut out = Rel::new();
+    for x in a {
+        for y in b {
+            if x[..nkeys] == y[..nkeys] {
+                out.insert(cat(&x[a_from..], &y[y.len() - nvb..]));
+            }
+        }
+    }
+    out
+}
+
+macro_rules! cart_combo {
+    ($A:ty, $DA:ty, $B:ty, $DB:ty, $OUT:ty, $oname:literal) => {
+        (
+            format!("{},{} x {},{} -> {}", <$A>::NAME, <$DA>::NAME, <$B>::NAME, <$DB>::NAME, $oname),
+            (|c: &Case| -> Option<Outs> {
+                drive(
+                    c,
+                    |r| <$A>::from_rel(r).map(SetUnion::new),
+                    |r| <$DA>::from_rel(r).map(SetUnion::new),
+                    |r| <$B>::from_rel(r).map(SetUnion::new),
+                    |r| <$DB>::from_rel(r).map(SetUnion::new),
+                    |x: &mut SetUnion<$A>, d: SetUnion<$DA>| {
+                        x.merge(d);
+                    },
+                    |x: &mut SetUnion<$B>, d: SetUnion<$DB>| {
+                        x.merge(d);
+                    },
+                    |a: &SetUnion<$A>, b: &SetUnion<$B>| CartesianProductBimorphism::<$OUT>::default().call(a.clone(), b.clone()),
+                    |a: &SetUnion<$DA>, b: &SetUnion<$B>| CartesianProductBimorphism::<$OUT>::default().call(a.clone(), b.clone()),
+                    |a: &SetUnion<$A>, b: &SetUnion<$DB>| CartesianProductBimorphism::<$OUT>::default().call(a.clone(), b.clone()),
+                    |x: &mut SetUnion<$OUT>, y: SetUnion<$OUT>| {
+                        x.merge(y);
+                    },
+                    |o: &SetUnion<$OUT>| o.as_reveal_ref().iter().map(|(x, y)| vec![*x, *y]).collect(),
+                )
+            }) as Runner,
+        )
+    };
+}
+
+type VA = SetUnion<HashSet<u8>>;
+type VB = SetUnion<BTreeSet<u8>>;
+type VO = SetUnion<HashSet<(u8, u8)>>;
+macro_rules! keyed_combo {
+    ($A:ident, $DA:ident, $B:ident, $DB:ident, $OUT:ident) => {
+        (
+            format!(
+                "{},{} x {},{} -> {}",
+                <$A<u8, VA> as FromMap<VA>>::NAME,
+                <$DA<u8, VA> as FromMap<VA>>::NAME,
+                <$B<u8, VB> as FromMap<VB>>::NAME,
+                <$DB<u8, VB> as FromMap<VB>>::NAME,
+                <$OUT<u8, VO> as FromMap<VO>>::NAME
+            ),
+            (|c: &Case| -> Option<Outs> {
+                type KB = KeyedBimorphism<$OUT<u8, VO>, CartesianProductBimorphism<HashSet<(u8, u8)>>>;
+                fn kb() -> KB {
+                    KeyedBimorphism::new(CartesianProductBimorphism::default())
+                }
+                drive(
+                    c,
+                    mk_map::<$A<u8, VA>, VA>,
+                    mk_map::<$DA<u8, VA>, VA>,
+                    mk_map::<$B<u8, VB>, VB>,
+                    mk_map::<$DB<u8, VB>, VB>,
+                    |x: &mut MapUnion<$A<u8, VA>>, d: MapUnion<$DA<u8, VA>>| {
+                        x.merge(d);
+                    },
+                    |x: &mut MapUnion<$B<u8, VB>>, d: MapUnion<$DB<u8, VB>>| {
+                        x.merge(d);
+                    },
+                    |a: &MapUnion<$A<u8, VA>>, b: &MapUnion<$B<u8, VB>>| kb().call(a.clone(), b.clone()),
+                    |a: &MapUnion<$DA<u8, VA>>, b: &MapUnion<$B<u8, VB>>| kb().call(a.clone(), b.clone()),
+                    |a: &MapUnion<$A<u8, VA>>, b: &MapUnion<$DB<u8, VB>>| kb().call(a.clone(), b.clone()),
+                    |x: &mut MapUnion<$OUT<u8, VO>>, y: MapUnion<$OUT<u8, VO>>| {
+                        x.merge(y);
+                    },
+                    |o: &MapUnion<$OUT<u8, VO>>| {
+                        let mut rel = Rel::new();
+                        for (k, v) in o.as_reveal_ref().iter() {
+                            for (x, y) in v.as_reveal_ref().iter() {
+                                rel.insert(vec![*k, *x, *y]);
+                            }
+                        }
+                        rel
+                    },
+                )
+            }) as Runner,
+        )
+    };
+}
+
+fn families() -> Vec<Family> {
+    let one = |n: &str, r: Runner| vec![(n.to_string(), r)];
+    vec![
+        Family {
+            name: "cartesian",
+            a: ArgKind::Set,
+            b: ArgKind::Set,
+            spec: spec_cartesian,
+            combos: vec![
+                cart_combo!(HashSet<u8>, HashSet<u8>, HashSet<u8>, HashSet<u8>, HashSet<(u8, u8)>, "HashSet"),
+                cart_combo!(BTreeSet<u8>, Vec<u8>, BTreeSet<u8>, Vec<u8>, BTreeSet<(u8, u8)>, "BTreeSet"),
+                cart_combo!(HashSet<u8>, SingletonSet<u8>, BTreeSet<u8>, OptionSet<u8>, HashSet<(u8, u8)>, "HashSet"),
+                cart_combo!(BTreeSet<u8>, ArraySet<u8, 2>, HashSet<u8>, SingletonSet<u8>, BTreeSet<(u8, u8)>, "BTreeSet"),
+                cart_combo!(HashSet<u8>, OptionSet<u8>, HashSet<u8>, ArraySet<u8, 2>, Vec<(u8, u8)>, "Vec"),
+            ],
+        },
+        Family {
+            name: "keyed-cartesian",
+            a: ArgKind::Map,
+            b: ArgKind::Map,
+            spec: spec_keyed,
+            combos: vec![
+                keyed_combo!(HashMap, HashMap, HashMap, HashMap, HashMap),
+                keyed_combo!(BTreeMap, VecMap, BTreeMap, VecMap, BTreeMap),
+                keyed_combo!(HashMap, SingletonMap, BTreeMap, OptionMap, HashMap),
+                keyed_combo!(BTreeMap, OptionMap, HashMap, SingletonMap, BTreeMap),
+            ],
+        },
+        Family {
+            name: "pair(set,max)",
+            a: ArgKind::Set,
+            b: ArgKind::Max,
+            spec: spec_pair_set_max,
+            combos: one("SetUnion<HashSet> x Max<u8>", |c| {
+                type A = SetUnion<HashSet<u8>>;
+                type B = Max<u8>;
+                drive(
+                    c,
+                    |r| <HashSet<u8>>::from_rel(r).map(SetUnion::new),
+                    |r| <HashSet<u8>>::from_rel(r).map(SetUnion::new),
+                    |r| Some(Max::new(max_of(r))),
+                    |r| Some(Max::new(max_of(r))),
+                    |x: &mut A, d: A| {
+                        x.merge(d);
+                    },
+                    |x: &mut B, d: B| {
+                        x.merge(d);
+                    },
+                    |a: &A, b: &B| PairBimorphism.call(a.clone(), *b),
+                    |a: &A, b: &B| PairBimorphism.call(a.clone(), *b),
+                    |a: &A, b: &B| PairBimorphism.call(a.clone(), *b),
+                    |x: &mut Pair<A, B>, y: Pair<A, B>| {
+                        x.merge(y);
+                    },
+                    |o: &Pair<A, B>| {
+                        let (s, m) = o.as_reveal_ref();
+                        s.as_reveal_ref().iter().map(|x| vec![0, *x]).chain(downset(1, *m.as_reveal_ref())).collect()
+                    },
+                )
+            }),
+        },
+        Family {
+            name: "pair(max,set)",
+            a: ArgKind::Max,
+            b: ArgKind::Set,
+            spec: spec_pair_max_set,
+            combos: one("Max<u8> x SetUnion<BTreeSet>", |c| {
+                type A = Max<u8>;
+                type B = SetUnion<BTreeSet<u8>>;
+                type DB = B;
+                drive(
+                    c,
+                    |r| Some(Max::new(max_of(r))),
+                    |r| Some(Max::new(max_of(r))),
+                    |r| <BTreeSet<u8>>::from_rel(r).map(SetUnion::new),
+                    |r| <BTreeSet<u8>>::from_rel(r).map(SetUnion::new),
+                    |x: &mut A, d: A| {
+                        x.merge(d);
+                    },
+                    |x: &mut B, d: DB| {
+                        x.merge(d);
+                    },
+                    |a: &A, b: &B| PairBimorphism.call(*a, b.clone()),
+                    |a: &A, b: &B| PairBimorphism.call(*a, b.clone()),
+                    |a: &A, b: &DB| PairBimorphism.call(*a, b.clone()),
+                    |x: &mut Pair<A, B>, y: Pair<A, B>| {
+                        x.merge(y);
+                    },
+                    |o: &Pair<A, B>| {
+                        let (m, s) = o.as_reveal_ref();
+                        downset(0, *m.as_reveal_ref()).chain(s.as_reveal_ref().iter().map(|x| vec![1, *x])).collect()
+                    },
+                )
+            }),
+        },
+        Family {
+            name: "ght-cartesian-root(2x2)",
+            a: ArgKind::Rows(2),
+            b: ArgKind::Rows(2),
+            spec: spec_cartesian,
+            combos: one("G1 x G1 -> (u8,u8 => u8,u8)", ght_family!(G1, 2, G1, 2, Out4, |a: &G1, b: &G1| GhtCartesianProductBimorphism::<Out4>::default().call(a, b))),
+        },
+        Family {
+            name: "ght-cartesian-root(2x3)",
+            a: ArgKind::Rows(2),
+            b: ArgKind::Rows(3),
+            spec: spec_cartesian,
+            combos: one("G1 x G2 -> (u8 => u8,u8,u8,u8)", ght_family!(G1, 2, G2, 3, Out5, |a: &G1, b: &G2| GhtCartesianProductBimorphism::<Out5>::default().call(a, b))),
+        },
+        Family {
+            name: "ght-cartesian-leaf(suffixes)",
+            a: ArgKind::Rows(2),
+            b: ArgKind::Rows(3),
+            spec: |a, b| join(a, b, 0, 1, 2),
+            combos: one("leaf(G1) x leaf(G3) -> G3", ght_family!(L1, 2, L3, 3, G3, |a: &L1, b: &L3| GhtCartesianProductBimorphism::<G3>::default().call(a, b))),
+        },
+        Family {
+            name: "ght-valtype-product(trie)",
+            a: ArgKind::Rows(2),
+            b: ArgKind::Rows(3),
+            spec: |a, b| join(a, b, 0, 0, 2),
+            combos: one("G1 x G3 -> (u8,u8 => u8,u8)", ght_family!(G1, 2, G3, 3, Out4, |a: &G1, b: &G3| GhtValTypeProductBimorphism::<Out4>::default().call(a, b))),
+        },
+        Family {
+            name: "ght-valtype-product(leaf)",
+            a: ArgKind::Rows(2),
+            b: ArgKind::Rows(2),
+            spec: |a, b| join(a, b, 0, 0, 1),
+            combos: one("leaf(G1) x leaf(G1) -> join leaf", ght_family!(L1, 2, L1, 2, LeafJ1, |a: &L1, b: &L1| GhtValTypeProductBimorphism::<LeafJ1>::default().call(a, b))),
+        },
+        Family {
+            name: "ght-node-keyed(1 key)",
+            a: ArgKind::Rows(2),
+            b: ArgKind::Rows(2),
+            spec: |a, b| join(a, b, 1, 0, 1),
+            combos: one(
+                "NodeKeyed(ValTypeProduct) on G1 x G1",
+                ght_family!(G1, 2, G1, 2, OutJ1, |a: &G1, b: &G1| {
+                    GhtNodeKeyedBimorphism::new(GhtValTypeProductBimorphism::<LeafJ1>::default()).call(a, b)
+                }),
+            ),
+        },
+        Family {
+            name: "ght-node-keyed(2 keys)",
+            a: ArgKind::Rows(3),
+            b: ArgKind::Rows(3),
+            spec: |a, b| join(a, b, 2, 0, 1),
+            combos: one(
+                "NodeKeyed(NodeKeyed(ValTypeProduct)) on G2 x G2",
+                ght_family!(G2, 3, G2, 3, OutJ2, |a: &G2, b: &G2| {
+                    GhtNodeKeyedBimorphism::new(GhtNodeKeyedBimorphism::new(GhtValTypeProductBimorphism::<LeafJ2>::default())).call(a, b)
+                }),
+            ),
+        },
+        Family {
+            name: "ght-deep-join(k|v)",
+            a: ArgKind::Rows(2),
+            b: ArgKind::Rows(2),
+            spec: |a, b| join(a, b, 1, 0, 1),
+            combos: one("DeepJoin on G1 x G1", ght_family!(G1, 2, G1, 2, OutJ1, |a: &G1, b: &G1| DJ1::default().call(a, b))),
+        },
+        Family {
+            name: "ght-deep-join(k1,k2|v)",
+            a: ArgKind::Rows(3),
+            b: ArgKind::Rows(3),
+            spec: |a, b| join(a, b, 2, 0, 1),
+            combos: one("DeepJoin on G2 x G2", ght_family!(G2, 3, G2, 3, OutJ2, |a: &G2, b: &G2| DJ2::default().call(a, b))),
+        },
+        Family {
+            name: "ght-deep-join(k|v1,v2)",
+            a: ArgKind::Rows(3),
+            b: ArgKind::Rows(3),
+            spec: |a, b| join(a, b, 1, 0, 2),
+            combos: one("DeepJoin on G3 x G3", ght_family!(G3, 3, G3, 3, OutJ3, |a: &G3, b: &G3| DJ3::default().call(a, b))),
+        },
+        Family {
+            name: "ght-bimorphism-wrapper(deep-join k1,k2|v)",
+            a: ArgKind::Rows(3),
+            b: ArgKind::Rows(3),
+            spec: |a, b| join(a, b, 2, 0, 1),
+            combos: one(
+                "GhtBimorphism(DeepJoin) on owned G2 x G2",
+                ght_family!(G2, 3, G2, 3, OutJ2, |a: &G2, b: &G2| {
+                    GhtBimorphism::new(DJ2::default()).call(a.clone(), b.clone())
+                }),
+            ),
+        },
+    ]
+}
+
+// ---------------------------------------------------------------------------------------------
+// the oracle
+
+fn rel_json(r: &Rel) -> Value {
+    json!(r.iter().collect::<Vec<_>>())
+}
+fn rel_from_json(v: &Value) -> Rel {
+    v.as_array().expect("relation").iter().map(|t| t.as_array().unwrap().iter().map(|x| x.as_u64().unwrap() as u8).collect()).collect()
+}
+
+/// Model join of two argument values.
+fn arg_join(kind: ArgKind, x: &Rel, y: &Rel) -> Rel {
+    match kind {
+        ArgKind::Max => [vec![max_of(x).max(max_of(y))]].into(),
+        _ => x.union(y).cloned().collect(),
+    }
+}
+
+fn check_case(rep: &mut Reporter, fams: &[Family], c: &Case) {
+    let fam = &fams[c.fam];
+    let (cname, runner) = &fam.combos[c.combo];
+    let side = if c.side == Side::Left { "left" } else { "right" };
+    let case = || {
+        json!({"engine": ENGINE, "family": fam.name, "combo": c.combo, "combo_name": cname, "side": side,
+               "a": rel_json(&c.a), "d": rel_json(&c.d), "b": rel_json(&c.b)})
+    };
+    let site = if fam.combos.len() > 1 { format!("C07|{}[{}]", fam.name, cname) } else { format!("C07|{}", fam.name) };
+    let outs = match catch(|| runner(c)) {
+        Err(p) => {
+            rep.eval();
+            rep.violation(&format!("{site}|panic|{side}"), &p, case());
+            return;
+        }
+        Ok(None) => {
+            rep.count(&format!("inapplicable:{}", fam.name));
+            return;
+        }
+        Ok(Some(o)) => o,
+    };
+    rep.count(&format!("cases:{}[{}]", fam.name, cname));
+    // what the documentation says the three calls compute
+    let (e_base, e_delta, e_merged) = match c.side {
+        Side::Left => ((fam.spec)(&c.a, &c.b), (fam.spec)(&c.d, &c.b), (fam.spec)(&arg_join(fam.a, &c.a, &c.d), &c.b)),
+        Side::Right => ((fam.spec)(&c.a, &c.b), (fam.spec)(&c.a, &c.d), (fam.spec)(&c.a, &arg_join(fam.b, &c.b, &c.d))),
+    };
+    let union: Rel = outs.base.union(&outs.delta).cloned().collect();
+    rep.eval();
+    if outs.merged != union {
+        rep.violation(
+            &format!("{site}|not-distributive|{side}"),
+            &format!("f(merged argument) = {:?} but f(base) ∪ f(delta) = {:?} ∪ {:?}", outs.merged, outs.base, outs.delta),
+            case(),
+        );
+    }
+    rep.eval();
+    if outs.joined != outs.merged {
+        rep.violation(
+            &format!("{site}|crate-merge-of-partial-outputs-differs|{side}"),
+            &format!("f(merged argument) = {:?} but merge(f(base), f(delta)) = {:?}", outs.merged, outs.joined),
+            case(),
+        );
+    }
+    for (what, got, want) in [("base", &outs.base, &e_base), ("delta", &outs.delta, &e_delta), ("merged", &outs.merged, &e_merged)] {
+        rep.eval();
+        if got != want {
+            rep.violation(
+                &format!("{site}|output-differs-from-documented-function"),
+                &format!("{what} call ({side}): got {got:?}, nested-loop model gives {want:?}"),
+                case(),
+            );
+            break;
+        }
+    }
+    // non-trivial: the delta contributes output that the base did not already produce
+    if !e_delta.is_subset(&e_base) {
+        rep.count(&format!("nontrivial:{}", fam.name));
+        rep.nontrivial(hash_of(&(fam.name, c.side, &c.a, &c.d, &c.b)));
+        rep.sample(case);
+    }
+}
+
+// ---------------------------------------------------------------------------------------------
+// universes
+
+fn subsets_upto(items: &[Vec<u8>], max: usize) -> Vec<Rel> {
+    let n = items.len();
+    (0u32..1 << n).filter(|m| m.count_ones() as usize <= max).map(|m| (0..n).filter(|i| m >> i & 1 == 1).map(|i| items[i].clone()).collect()).collect()
+}
+fn rows(arity: usize, dom: u8) -> Vec<Vec<u8>> {
+    let mut out = vec![vec![]];
+    for _ in 0..arity {
+        out = out.into_iter().flat_map(|p: Vec<u8>| (0..dom).map(move |x| cat(&p, &[x]))).collect();
+    }
+    out
+}
+
+/// The small exhaustive universe of an argument kind. `base` shifts element values so that the two
+/// sides of a product draw from different domains.
+fn universe(kind: ArgKind, base: u8, tier: Tier) -> Vec<Rel> {
+    match kind {
+        ArgKind::Set => subsets_upto(&(0..3).map(|x| vec![base + x]).collect::<Vec<_>>(), 3),
+        ArgKind::Max => (0..4u8).map(|v| [vec![v]].into()).collect(),
+        ArgKind::Map => {
+            // keys {0,1}; each absent or one of the 4 subsets of {base, base+1} (the empty one = bottom-valued entry)
+            let per_key = |k: u8| -> Vec<Rel> {
+                let mut v = vec![Rel::new()];
+                for m in 0..4u8 {
+                    let mut r: Rel = [vec![k]].into();
+                    for x in 0..2 {
+                        if m >> x & 1 == 1 {
+                            r.insert(vec![k, base + x]);
+                        }
+                    }
+                    v.push(r);
+                }
+                v
+            };
+            let mut out = vec![];
+            for r0 in per_key(0) {
+                for r1 in per_key(1) {
+                    out.push(r0.union(&r1).cloned().collect());
+                }
+            }
+            out
+        }
+        ArgKind::Rows(2) => subsets_upto(&rows(2, 2), 4),
+        ArgKind::Rows(n) => subsets_upto(&rows(n, 2), if tier == Tier::Thorough { 3 } else { 2 }),
+    }
+}
+
+fn random_arg(rng: &mut Rng, kind: ArgKind, base: u8) -> Rel {
+    match kind {
+        ArgKind::Set => (0..rng.below(7)).map(|_| vec![base + rng.below(12) as u8]).collect(),
+        ArgKind::Max => [vec![rng.below(200) as u8]].into(),
+        ArgKind::Map => {
+            let mut r = Rel::new();
+            for _ in 0..rng.below(5) {
+                let k = rng.below(6) as u8;
+                r.insert(vec![k]);
+                for _ in 0..rng.below(4) {
+                    r.insert(vec![k, base + rng.below(6) as u8]);
+                }
+            }
+            r
+        }
+        ArgKind::Rows(n) => {
+            let dom = 2 + rng.below(3);
+            (0..rng.below(9)).map(|_| (0..n).map(|_| rng.below(dom) as u8).collect()).collect()
+        }
+    }
+}
+
 fn main() {
-    let args = vcommon::Args::parse();
+    let args = Args::parse();
     if args.prop == "NONE" {
         return;
     }
-    eprintln!("not implemented yet");
-    std::process::exit(3);
+    assert_eq!(args.prop, "C07", "mon_morph serves C07");
+    let mut rep = Reporter::new("C07", args.seed);
+    let fams = families();
+    if let Some(case) = args.replay_case() {
+        let fam = fams.iter().position(|f| f.name == case["family"].as_str().unwrap_or("")).expect("family");
+        let c = Case {
+            fam,
+            combo: case["combo"].as_u64().unwrap_or(0) as usize,
+            side: if case["side"] == "left" { Side::Left } else { Side::Right },
+            a: rel_from_json(&case["a"]),
+            d: rel_from_json(&case["d"]),
+            b: rel_from_json(&case["b"]),
+        };
+        check_case(&mut rep, &fams, &c);
+        rep.finish("replay", false);
+        return;
+    }
+    let mut rng = args.rng();
+    let tier = args.tier;
+    let mut idx = 0usize;
+    let mut exh = BTreeMap::new();
+    for (fi, fam) in fams.iter().enumerate() {
+        // (1) exhaustive over the small universes: all (a, Δa, b) and all (a, b, Δb), every combination of representations
+        let (ua, ub) = (universe(fam.a, 0, tier), universe(fam.b, 10, tier));
+        let mut n = 0u64;
+        if tier == Tier::Miri {
+            for _ in 0..6 {
+                for side in [Side::Left, Side::Right] {
+                    let (a, b) = (rng.choose(&ua).clone(), rng.choose(&ub).clone());
+                    let d = if side == Side::Left { rng.choose(&ua).clone() } else { rng.choose(&ub).clone() };
+                    idx += 1;
+                    if args.in_shard(idx) {
+                        for combo in 0..fam.combos.len() {
+                            check_case(&mut rep, &fams, &Case { fam: fi, combo, side, a: a.clone(), d: d.clone(), b: b.clone() });
+                        }
+                    }
+                }
+            }
+        } else {
+            for a in &ua {
+                for b in &ub {
+                    for (side, ud) in [(Side::Left, &ua), (Side::Right, &ub)] {
+                        for d in ud {
+                            n += 1;
+                            for combo in 0..fam.combos.len() {
+                                check_case(&mut rep, &fams, &Case { fam: fi, combo, side, a: a.clone(), d: d.clone(), b: b.clone() });
+                            }
+                        }
+                    }
+                }
+            }
+        }
+        exh.insert(fam.name, json!({"universe_a": ua.len(), "universe_b": ub.len(), "triples": n}));
+        // (2) random larger values
+        for _ in 0..args.budget(2_000, 40_000, 2) {
+            let side = if rng.chance(1, 2) { Side::Left } else { Side::Right };
+            let (a, b) = (random_arg(&mut rng, fam.a, 0), random_arg(&mut rng, fam.b, 10));
+            let d = if side == Side::Left { random_arg(&mut rng, fam.a, 0) } else { random_arg(&mut rng, fam.b, 10) };
+            idx += 1;
+            if !args.in_shard(idx) {
+                continue;
+            }
+            for combo in 0..fam.combos.len() {
+                check_case(&mut rep, &fams, &Case { fam: fi, combo, side, a: a.clone(), d: d.clone(), b: b.clone() });
+            }
+        }
+    }
+    rep.extra("exhaustive", json!(exh));
+    let miri = tier == Tier::Miri;
+    for fam in &fams {
+        rep.require(miri || rep.counter(&format!("nontrivial:{}", fam.name)) >= 500, &format!("fewer than 500 cases of {} where the delta contributes new output", fam.name));
+        for (cname, _) in &fam.combos {
+            let n = rep.counter(&format!("cases:{}[{}]", fam.name, cname));
+            rep.require(n >= if miri { 1 } else { 300 }, &format!("fewer than 300 cases ran on {}[{}]", fam.name, cname));
+        }
+    }
+    rep.finish(
+        "For every shipped bimorphism (set cartesian product in 5 representation combinations incl. Vec/Singleton/Option/Array deltas, KeyedBimorphism<_, CartesianProduct> in 4 map-representation combinations incl. bottom-valued entries, PairBimorphism on set x max and max x set, GhtCartesianProduct at trie roots and on leaves, GhtValTypeProduct on tries and leaves, GhtNodeKeyed over 1 and 2 key levels, DeepJoinLatticeBimorphism for three trie shapes, GhtBimorphism wrapper): all triples (a, delta, b) on both argument sides over the small universes (all subsets of a 3-element domain; all maps over 2 keys x subsets of 2 values; all 16 relations over {0,1}^2; all relations of <=2 (thorough <=3) rows over {0,1}^3) plus random larger values (<=8 rows / 6 elements over domains <=12). Each case runs the real bimorphism on base, delta and crate-merged argument, reads outputs back as sets of tuples and checks f(merged)=f(base) U f(delta), the same through the crate's merge of the outputs, and every output against the nested-loop specification. Non-trivial = distinct (family, side, a, delta, b) where the delta's output is not already contained in the base's output.",
+        true,
+    );
 }
